@@ -72,6 +72,17 @@ CLAIMS = {
              "catastrophic (pattern, length) pairs x 8 regex-consuming APIs through eval end with a value or JSError.",
         technique="symbolic execution of the regex parser/compiler/VM with symbolic pattern text and symbolic budgets (CrossHair/z3)",
         design_ref="DESIGN.md section 4 (C10)"),
+    "C20": dict(
+        text="lastIndex protocol as ONE step from an arbitrary state: for each (pattern, flag set) the script-level "
+             "RegExp object gets a solver-chosen lastIndex (integers, negatives, fractions, NaN, infinities, strings, "
+             "undefined, null, huge values), runs exec or test on a solver-chosen subject, and the result and the "
+             "lastIndex value/type afterwards must equal RegExpBuiltinExec; 3-operation histories check composition. "
+             "String match / replace / replaceAll / split / search with regex arguments are compared with the "
+             "transcribed @@match/@@replace/@@split/@@search and GetSubstitution over solver-chosen subjects, "
+             "replacement templates ($$ $& $` $' $n $nn), limits and a recording function replacer, including the "
+             "lastIndex they leave behind.",
+        technique="solver-driven exploration of the real RegExp object against a transcribed RegExpBuiltinExec state machine (CrossHair/z3)",
+        design_ref="DESIGN.md section 4 (C20)"),
     "C14": dict(
         text="Encoding kernels over all sizes: for every opcode with an operand, Compiler._emit / _emit_jump / "
              "_patch_jump are executed with the operand, the jump target and the code size as solver variables in "
